@@ -10,7 +10,8 @@ RULE = ('Histories of public mutator calls biased to rejected calls (multi-eleme
         'root lists of every WBS) taken before the call is compared with the one taken after.  The fault is the '
         'rejection; the enumeration is over where inside the call it occurs.  Non-trivial = history with a raising '
         'call on a graph with >=3 attached tasks; distinct = distinct (universe, op list).  Small-scope sub-run: every '
-        '1-step (thorough: 2-step, reduced alphabet) history over 4 tasks / 2 WBSs from 5 seed shapes.')
+        '1-step history over the full small alphabet and every 2-step history over a tiny alphabet, 4 tasks / 2 WBSs, 10 seed '
+        'shapes (thorough: also the mixed reduced x tiny 2-step histories).')
 ASSUMPTIONS = ['Task(...) constructor calls are executed but not judged (a constructor is not a mutator of an existing object)',
                'snapshots use the direct public getters; recursive getters are compared separately']
 
